@@ -45,7 +45,9 @@ def main(argv):
                 continue
             caught_by = []
             for prop in props:
-                env = dict(os.environ, FRAME_REPO=wt, VERIF_NO_FRESH="1")
+                env = dict(os.environ, FRAME_REPO=wt)
+                if prop != "C13":   # C13's worlds under other hash seeds are part of the check, not of the harness self-test
+                    env["VERIF_NO_FRESH"] = "1"
                 env.pop("PYTHONHASHSEED", None)
                 t0 = time.time()
                 tier = os.environ.get("SENS_TIER", "quick")
